@@ -86,6 +86,12 @@ func startWorker() (*worker, error) {
 	return &worker{cmd: cmd, in: in, out: bufio.NewReaderSize(outp, 1<<20), stderr: tb}, nil
 }
 
+// watchdogTimeout: real time after which a scenario counts as hung (it is then re-run alone
+// with twice the time; only a reproduced hang is reported).
+func watchdogTimeout() time.Duration {
+	return time.Duration(envInt("VERIF_WATCHDOG_S", 30)) * time.Second
+}
+
 func gomaxprocsForWorkers() string {
 	if v := os.Getenv("VERIF_WORKER_GOMAXPROCS"); v != "" {
 		return v
@@ -158,6 +164,8 @@ func (p *pool) runAll(reqs []*request, onResult func(i int, o *Outcome, log []st
 	}
 	jobs := make(chan item)
 	var mu sync.Mutex
+	hangSeen, fatalSeen := false, map[string]bool{}
+	skipped := 0
 	var wg sync.WaitGroup
 	for k := 0; k < p.n; k++ {
 		wg.Add(1)
@@ -186,7 +194,28 @@ func (p *pool) runAll(reqs []*request, onResult func(i int, o *Outcome, log []st
 					}
 					w = nw
 				}
-				cr := w.call(it.req, p.reqTO)
+				mu.Lock()
+				to := p.reqTO
+				if hangSeen {
+					// the hang is established; do not spend the full watchdog time on each further one
+					to = 6 * time.Second
+				}
+				mu.Unlock()
+				cr := w.call(it.req, to)
+				mu.Lock()
+				skipRerun := (cr.timeout && hangSeen) || (cr.died && fatalSeen[fatalSite(cr.stderr)])
+				mu.Unlock()
+				if skipRerun {
+					// a hang / fatal error has already been reproduced in this run: further
+					// occurrences are counted, not re-run (each costs minutes of real time)
+					w = nil
+					mu.Lock()
+					onResult(it.i, &Outcome{Index: it.req.Index, Stats: map[string]int{"hang_or_fatal_not_rerun": 1}}, nil)
+					done++
+					skipped++
+					mu.Unlock()
+					continue
+				}
 				if cr.timeout || cr.died {
 					w = nil
 					// re-run alone
@@ -203,9 +232,15 @@ func (p *pool) runAll(reqs []*request, onResult func(i int, o *Outcome, log []st
 					case err != nil:
 						cr.resp = &response{Outcome: &Outcome{Index: it.req.Index, Error: "cannot start worker: " + err.Error()}}
 					case second.timeout && cr.timeout:
+						mu.Lock()
+						hangSeen = true
+						mu.Unlock()
 						cr.resp = &response{Outcome: &Outcome{Index: it.req.Index, Verdicts: []Verdict{
 							mkVerdict(it.req.propertyOf(), "hang", "watchdog", fmt.Sprintf("scenario did not finish within %v of real time, twice", 2*p.reqTO), 0)}}}
 					case second.died && cr.died:
+						mu.Lock()
+						fatalSeen[fatalSite(second.stderr)] = true
+						mu.Unlock()
 						cr.resp = &response{Outcome: &Outcome{Index: it.req.Index, Verdicts: []Verdict{
 							mkVerdict(it.req.propertyOf(), "fatal", fatalSite(second.stderr), "the process died with a fatal runtime error, twice: "+shortText(lastLines(second.stderr, 12), 1500), 0)}}}
 					case !second.timeout && !second.died && err == nil:
@@ -229,6 +264,14 @@ func (p *pool) runAll(reqs []*request, onResult func(i int, o *Outcome, log []st
 	}
 	for i, r := range reqs {
 		if !deadline.IsZero() && time.Now().After(deadline) {
+			truncated = true
+			break
+		}
+		mu.Lock()
+		tooMany := skipped > 40
+		mu.Unlock()
+		if tooMany {
+			// the tree hangs or dies on many scenarios: the violation is established, stop here
 			truncated = true
 			break
 		}
@@ -352,7 +395,7 @@ func runDriver(prop, tier string, seed int64, from, count, nworkers int, verif, 
 	foreignByFP := map[string]int{}
 	foreignDetail := map[string]string{}
 	var harnessErrs []string
-	p := &pool{n: nworkers, reqTO: 90 * time.Second, recycleN: 4000}
+	p := &pool{n: nworkers, reqTO: watchdogTimeout(), recycleN: 2000}
 	done, truncated, inconclusive := p.runAll(reqs, func(i int, o *Outcome, _ []string) {
 		if o.Error != "" {
 			harnessErrs = append(harnessErrs, fmt.Sprintf("index %d: %s", o.Index, o.Error))
@@ -516,7 +559,11 @@ func minimise(eng engine, sc *Scenario, fp string, p *pool) (*Scenario, *Outcome
 		if err != nil {
 			return executeScenario(c)
 		}
-		cr := w.call(&request{Scenario: c}, 120*time.Second)
+		to := 120 * time.Second
+		if strings.Contains(fp, "/hang/") {
+			to = 8 * time.Second // a candidate that still hangs is recognised quickly
+		}
+		cr := w.call(&request{Scenario: c}, to)
 		if cr.timeout || cr.died {
 			w, err = startWorker()
 			// a candidate that kills the worker is not used for shrinking, except when
@@ -589,7 +636,7 @@ func selftestDeterminism(props []string, n int, seed int64) int {
 				reqs[i] = &request{Gen: true, Property: prop, Seed: seed, Index: i, Tier: "quick"}
 			}
 			hs := make([]string, n)
-			p := &pool{n: 8, reqTO: 90 * time.Second, recycleN: 7 + len(hashes)*5}
+			p := &pool{n: 8, reqTO: watchdogTimeout(), recycleN: 7 + len(hashes)*5}
 			p.runAll(reqs, func(i int, o *Outcome, _ []string) {
 				hs[i] = o.LogSHA256 + fmt.Sprint(len(o.Verdicts))
 				if o.Error != "" {
